@@ -329,6 +329,7 @@ func c01Pkg(r *ev.Run, d *C01Data, pc *C01Pkg) error {
 	clv := reflect.ValueOf(cl)
 	r.Count("packages", 1)
 
+	bigBodies := 0
 	for _, op := range pkg.Ops {
 		if op.Iface != "Handler" {
 			continue
@@ -364,6 +365,13 @@ func c01Pkg(r *ev.Run, d *C01Data, pc *C01Pkg) error {
 		for k := 0; k < 2*pc.Values; k++ {
 			hostile := k%2 == 1
 			b := &Builder{Pkg: pkg, Rng: rng, Hostile: hostile, MaxDepth: 3 + k%3}
+			if k == 2 && reqT != nil && bigBodies < 6 {
+				// one core value with an 11 MiB string member, for the first body operations of every package: a body
+				// reader with a size limit must refuse, not cut
+				b.Big = 11<<20 + 7
+				bigBodies++
+				r.Count("large_body_values", 1)
+			}
 			var reqV, parV reflect.Value
 			okBuild := true
 			if reqT != nil {
